@@ -284,6 +284,10 @@ def r1(p, rep):
             if kind in ("genexp", "listcomp", "list", "tuple") and isinstance(par, ast.Call) and isinstance(par.func, ast.Name) and (par.func.id in ORDER_FREE_CALLS or (par.func.id == "sorted" and not par.keywords)):
                 rep.ok("C16.R1", key, site, f"consumed by order-free {par.func.id}()")
                 continue
+            # (a') handed to a helper that only looks at its argument in order-free ways
+            if kind in ("genexp", "listcomp", "list", "tuple") and isinstance(par, ast.Call) and _order_free_argument(par, node):
+                rep.ok("C16.R1", key, site, f"handed to {norm(par.func)}(), which consumes that argument only through set-building / len / membership")
+                continue
             # (b) singleton guard
             facts = cfg.guards_of_ast(node)
             if singleton_guard(facts, etext):
@@ -322,6 +326,47 @@ def r1(p, rep):
         raise AnalysisError(f"only {n_sets} set-typed consumptions found; the set-type inference no longer sees the code")
     rep.assume("the solution set of an equation system does not depend on the order of its equations (sympy)")
     rep.assume("dict iteration order is insertion order (Python >= 3.7); only set/frozenset iteration depends on hashing")
+
+
+def _order_free_argument(call, arg):
+    """`call` denotes a lexical helper and the parameter receiving `arg` is only iterated into a set, measured,
+    tested for membership or fed to an order-free builtin inside it"""
+    from sa.cfg import _lookup_def
+
+    h = _lookup_def(call)
+    if h is None or h.args.vararg or h.args.kwarg:
+        return False
+    params = [a.arg for a in h.args.posonlyargs + h.args.args]
+    pname = None
+    for i, a in enumerate(call.args):
+        if a is arg and i < len(params):
+            pname = params[i]
+    for k in call.keywords:
+        if k.value is arg:
+            pname = k.arg
+    if pname is None:
+        return False
+    for n in ast.walk(h):
+        if isinstance(n, ast.Name) and n.id == pname and isinstance(n.ctx, ast.Store):
+            return False
+    for n in ast.walk(h):
+        if not (isinstance(n, ast.Name) and n.id == pname and isinstance(n.ctx, ast.Load)):
+            continue
+        par = getattr(n, "_parent", None)
+        if isinstance(par, ast.comprehension) and par.iter is n:
+            comp = getattr(par, "_parent", None)
+            if isinstance(comp, ast.SetComp):
+                continue
+            outer = getattr(comp, "_parent", None)
+            if isinstance(comp, ast.GeneratorExp) and isinstance(outer, ast.Call) and isinstance(outer.func, ast.Name) and outer.func.id in ORDER_FREE_CALLS:
+                continue
+            return False
+        if isinstance(par, ast.Call) and isinstance(par.func, ast.Name) and par.func.id in (ORDER_FREE_CALLS | {"len", "set", "frozenset"}) and n in par.args:
+            continue
+        if isinstance(par, ast.Compare) and n in par.comparators and all(isinstance(o, (ast.In, ast.NotIn)) for o in par.ops):
+            continue
+        return False
+    return True
 
 
 FRESH_CALLS = ("uuid.uuid4", "uuid.uuid1")
